@@ -79,6 +79,9 @@ def build_fs(world):
         for rel, text in _st['tree'].items():
             if rel in (world.get('missing', {}).get(root) or []):
                 continue
+            only = (world.get('only') or {}).get(root)
+            if only is not None and rel.split('/')[0] not in only:
+                continue
             files[root + '/' + rel] = text
     for path, dmg in sorted((world.get('damage') or {}).items()):
         if path in files:
@@ -334,7 +337,8 @@ class Run(object):
                  'missing': spec.get('missing') or {},
                  'install': spec.get('install'),
                  'register_demo': spec.get('register_demo'),
-                 'damage': dict(spec.get('damage') or {})}
+                 'damage': dict(spec.get('damage') or {}),
+                 'only': spec.get('only')}
         self.bundled = spec['install'] + '/data' if spec.get('install') \
             else bundled_dir()
         env = dict(world['env'])
@@ -577,6 +581,15 @@ def matrix_specs():
                   'env': {ENVVAR: ''}, 'lives': [{'ops': [
                       {'op': 'load_name', 'lib': small[0]},
                       {'op': 'load_name', 'lib': small[1]}]}]})
+    # one library relocated on its own: a copy that holds nothing but that
+    # library's directory
+    for lib in libs:
+        specs.append({'id': 'matrix-reloc-alone-%s' % lib, 'roots': [RELOC[1]],
+                      'env': {ENVVAR: RELOC[1]}, 'only': {RELOC[1]: [lib]},
+                      'lives': [{'ops': [
+                          {'op': 'load_name', 'lib': lib},
+                          {'op': 'load_path', 'lib': lib,
+                           'root': RELOC[1]}]}]})
     # a copy that went wrong (one pattern of a scheme garbled, a data file
     # torn): loaded twice in one process, then again after a restart with
     # the copy repaired
